@@ -1,5 +1,121 @@
-import DisjointImpls.Key
+/-
+  C12 — dispatch-key identity (`TraitBound: PartialEq / Hash / ToTokens`, model `Key.lean`): property
+  theorems. All proofs are in `Lemmas/KeyLemmas.lean`.
+
+  `wfPath p` (executable): `p` has at least one segment, every segment has an identifier, and the last
+  segment has no parenthesized arguments (those hit `unreachable!()` in the code).
+  Accessors (`Lemmas/KeyLemmas.lean`): `initSegs p` (all segments but the last), `lastIdent p`,
+  `lastArgs p` (generic arguments of the last segment, `[]` when there are none).
+
+  All statements hold as posed; `C12_ignores_bindings`, `C12_tokens_strip_only_bindings`,
+  `C12_strip_idempotent` and `C12_hash_of_key` need no well-formedness.
+-/
+import DisjointImpls.Lemmas.KeyLemmas
 namespace DI
-theorem C12_placeholder : tbEq (.tparam "x") (.tparam "x") = .panic := by
+
+/-- on well-formed paths `TraitBound::eq` is equality of keys -/
+theorem C12_eq_iff_key (p q : T) (hp : wfPath p = true) (hq : wfPath q = true) :
+    tbEq p q = .t ↔ keyOf p = keyOf q := by
+  rw [tbEq_eq hp hq, keyOf_eq hp, keyOf_eq hq, Option.some.injEq]
+  by_cases h : keyOf' p = keyOf' q <;> simp [h]
+
+/-- never panics on well-formed paths -/
+theorem C12_total (p q : T) (hp : wfPath p = true) (hq : wfPath q = true) :
+    tbEq p q = .t ∨ tbEq p q = .f := by
+  rw [tbEq_eq hp hq]
+  by_cases h : keyOf' p = keyOf' q <;> simp [h]
+
+theorem C12_refl (p : T) (hp : wfPath p = true) : tbEq p p = .t :=
+  (C12_eq_iff_key p p hp hp).2 rfl
+
+theorem C12_symm (p q : T) (hp : wfPath p = true) (hq : wfPath q = true) : tbEq p q = tbEq q p := by
+  rw [tbEq_eq hp hq, tbEq_eq hq hp]
+  by_cases h : keyOf' p = keyOf' q
+  · simp [h]
+  · have h' : ¬ keyOf' q = keyOf' p := fun e => h e.symm
+    simp [h, h']
+
+theorem C12_trans (p q r : T) (hp : wfPath p = true) (hq : wfPath q = true) (hr : wfPath r = true) :
+    tbEq p q = .t → tbEq q r = .t → tbEq p r = .t := by
+  rw [C12_eq_iff_key p q hp hq, C12_eq_iff_key q r hq hr, C12_eq_iff_key p r hp hr]
+  exact Eq.trans
+
+/-- the hasher is fed a function of the key (no well-formedness needed) -/
+theorem C12_hash_of_key (p q : T) : keyOf p = keyOf q → hashFeed p = hashFeed q := by
+  intro h; rw [hashFeed_eq_map, hashFeed_eq_map, h]
+
+/-- `k1 == k2 → hash(k1) == hash(k2)` -/
+theorem C12_hash_agrees (p q : T) (hp : wfPath p = true) (hq : wfPath q = true) :
+    tbEq p q = .t → hashFeed p = hashFeed q :=
+  fun h => C12_hash_of_key p q ((C12_eq_iff_key p q hp hq).1 h)
+
+/-- the feed determines the key: the hash distinguishes exactly what `eq` distinguishes (before hashing) -/
+theorem C12_hash_iff (p q : T) (hp : wfPath p = true) (hq : wfPath q = true) :
+    hashFeed p = hashFeed q ↔ keyOf p = keyOf q := by
+  refine ⟨fun h => ?_, C12_hash_of_key p q⟩
+  rw [hashFeed_eq_map, hashFeed_eq_map, keyOf_eq hp, keyOf_eq hq] at h
+  simp only [Option.map_some, Option.some.injEq] at h
+  rw [keyOf_eq hp, keyOf_eq hq, feedOf_inj h]
+
+/-- bindings are ignored: removing the `GenericArgument::AssocType` arguments of the last segment does not
+    change the key -/
+theorem C12_ignores_bindings (p : T) : keyOf (stripBindings p) = keyOf p := keyOf_stripBindings p
+
+section Forms
+private def seg (n : String) (args : T) : T := .node "PathSegment" [] [.node "Ident" [n] [], args]
+private def path (segs : List T) : T := .node "Path" [] [.node "IgnL" [] [.node "None" [] []], .node "List" [] segs]
+private def angle (args : List T) : T :=
+  .node "PathArguments::AngleBracketed" [] [.node "Ign" [] [.node "None" [] []], .node "List" [] args]
+private def binding : T := .node "GenericArgument::AssocType" [] [.node "Ident" ["A"] [], .node "None" [] [], .tparam "X"]
+
+/-- `Tr`, `Tr<>`, `Tr<A = X>` have the same key; `Tr<u8>` and `Tr<u8, A = X>` too, and a different one -/
+theorem C12_tr_forms :
+    keyOf (path [seg "Tr" (.node "PathArguments::None" [] [])]) = keyOf (path [seg "Tr" (angle [])]) ∧
+    keyOf (path [seg "Tr" (angle [])]) = keyOf (path [seg "Tr" (angle [binding])]) ∧
+    keyOf (path [seg "Tr" (angle [.node "GenericArgument::Type" [] [.tparam "U"]])]) =
+      keyOf (path [seg "Tr" (angle [.node "GenericArgument::Type" [] [.tparam "U"], binding])]) ∧
+    keyOf (path [seg "Tr" (angle [.node "GenericArgument::Type" [] [.tparam "U"]])]) ≠
+      keyOf (path [seg "Tr" (angle [])]) ∧
+    tbEq (path [seg "Tr" (.node "PathArguments::None" [] [])]) (path [seg "Tr" (angle [binding])]) = .t ∧
+    wfPath (path [seg "Tr" (angle [binding])]) = true := by
   decide
+end Forms
+
+/-- nothing else is ignored: equal keys mean the same leading segments, the same identifier and the same
+    non-binding arguments in the same order -/
+theorem C12_nothing_else (p q : T) (hp : wfPath p = true) (hq : wfPath q = true) :
+    keyOf p = keyOf q ↔
+      initSegs p = initSegs q ∧ lastIdent p = lastIdent q ∧ nonAssoc (lastArgs p) = nonAssoc (lastArgs q) := by
+  rw [keyOf_eq hp, keyOf_eq hq, Option.some.injEq]
+  simp only [keyOf', TraitKey.mk.injEq]
+
+/-- the key of a well-formed path, component by component -/
+theorem C12_key_components (p : T) (hp : wfPath p = true) :
+    keyOf p = some ⟨initSegs p, lastIdent p, nonAssoc (lastArgs p)⟩ := keyOf_eq hp
+
+/-- the printed bound is the user's bound with exactly the bindings removed: same leading segments, same
+    identifier, the arguments of the last segment filtered in order -/
+theorem C12_tokens_parts (p : T) :
+    initSegs (tbTokens p) = initSegs p ∧ lastIdent (tbTokens p) = lastIdent p ∧
+    lastArgs (tbTokens p) = nonAssoc (lastArgs p) := stripBindings_parts p
+
+theorem C12_tokens_strip_only_bindings (p : T) :
+    keyOf (tbTokens p) = keyOf p ∧ nonAssoc (lastArgs (tbTokens p)) = lastArgs (tbTokens p) := by
+  refine ⟨keyOf_stripBindings p, ?_⟩
+  rw [(C12_tokens_parts p).2.2, nonAssoc_idem]
+
+/-- the printed bound is again a well-formed path, equal (as a key) to the bound -/
+theorem C12_tokens_eq (p : T) (hp : wfPath p = true) : wfPath (tbTokens p) = true ∧ tbEq (tbTokens p) p = .t := by
+  have hw : wfPath (tbTokens p) = true := by unfold tbTokens; rw [wfPath_stripBindings, hp]
+  exact ⟨hw, (C12_eq_iff_key _ _ hw hp).2 (keyOf_stripBindings p)⟩
+
+theorem C12_strip_idempotent (p : T) : stripBindings (stripBindings p) = stripBindings p :=
+  stripBindings_idem p
+
+/-- outside `wfPath` the comparison panics (parenthesized arguments, no segments) -/
+theorem C12_panics_outside :
+    tbEq (.node "Path" [] [.node "IgnL" [] [.node "None" [] []], .node "List" [] [.node "PathSegment" [] [.node "Ident" ["Fn"] [],
+      .node "PathArguments::Parenthesized" [] []]]]) (.node "Path" [] [.node "IgnL" [] [.node "None" [] []], .node "List" [] [.node "PathSegment" [] [.node "Ident" ["Fn"] [],
+      .node "PathArguments::Parenthesized" [] []]]]) = .panic := by decide
+
 end DI
